@@ -232,18 +232,20 @@ def drive(stream=b'', cuts=None, react=None, response_extra=b'', url='ws://examp
     S = make_session_class(run, script, connect_exc=connect_exc, sock_kwargs=sock_kwargs)
     kw = dict(session_class=S)
     kw.update(connect_kwargs or {})
-    gen = ws.connect(**kw)
-    run.gen = gen
     try:
         if abandon_how == 'with':
             with ws:
-                _loop(run, ws, gen, react, abandon_at, 'raise', max_events)
+                _loop(run, ws, kw, react, abandon_at, 'raise', max_events)
         else:
-            _loop(run, ws, gen, react, abandon_at, abandon_how, max_events)
+            _loop(run, ws, kw, react, abandon_at, abandon_how, max_events)
     except _Abandon:
         pass
     except Exception as e:          # escaped from the iterator: C09 violation material
-        run.exception = e
+        run.exception = repr(e)
+    # the exception (and with it the traceback's reference to the consumer frame and its iterator)
+    # is gone here: CPython finalises an abandoned generator at this point at the latest
+    import gc
+    gc.collect()
     run.session = ws.state.session
     run.selector = FakeSelector.instances[-1] if FakeSelector.instances else None
     return run
@@ -253,16 +255,15 @@ class _Abandon(Exception):
     pass
 
 
-def _loop(run, ws, gen, react, abandon_at, how, max_events):
+def _loop(run, ws, kw, react, abandon_at, how, max_events):
+    """the consumer: `for event in websocket.connect(...)`; the iterator is referenced by this
+    frame only, exactly as in application code"""
     k = 0
-    for ev in gen:
+    for ev in ws.connect(**kw):
         run.events.append(ev)
         run.wire_at_event.append(len(run.sock.out) if run.sock else 0)
         if abandon_at is not None and k == abandon_at:
-            if how == 'break':
-                break
-            if how == 'close':
-                gen.close()
+            if how in ('break', 'close'):
                 break
             raise _Abandon()
         if react:
@@ -270,10 +271,6 @@ def _loop(run, ws, gen, react, abandon_at, how, max_events):
         k += 1
         if k > max_events:
             raise RuntimeError('harness: too many events')
-    if how == 'break' and abandon_at is not None:
-        # dropping the last reference finalises the generator (CPython reference counting)
-        run.gen = None
-        del gen
 
 
 def ev_summary(e):
